@@ -47,4 +47,25 @@ CLAIMS.update({
                 'handlers are assumed not to raise and to return well-formed protocol errors (A-user)',
     },
 })
+CLAIMS.update({
+    'C09': {
+        'text': 'retry / retry_async wrapped(): one inductive invariant over the ghost event trace (k sends, each followed '
+                'by a pause of exactly the k-th delay of the backoff, every retried outcome was a listed code or a listed '
+                'exception class, iterator position = k <= n) proves for every n and every outcome sequence: at most n+1 '
+                'sends, no pause before the first or after the last send, the last outcome (response / None / exception '
+                'object) is handed back unchanged, a listed outcome is only handed back when no attempt remains.',
+        'note': 'Backoff.__call__ is an assumed contract here (fresh iterator over delays_of(backoff), numbers); the '
+                'closed forms of the three backoff generators and the retried() strategy selection are not yet under '
+                'contract; time.sleep/asyncio.sleep only record; `except tuple(classes)` is the uninterpreted exc_listed',
+    },
+    'C19': {
+        'text': 'traced wrappers (sync and async, one contract): three loop invariants over the tracer list and the ghost '
+                'trace prove, for any number of tracers and any outcome of the wrapped send (returns anything, raises any '
+                'BaseException incl. non-Exception ones): begin*n, the send, then end*n with the response or error*n with '
+                'the raised exception object, each tracer called in list order with the same trace context, and the very '
+                'same exception object leaves.',
+        'note': 'tracers are assumed not to raise and _tracers to be a list (A-user); composition with the retry loop '
+                '(every attempt traced) follows from C09 counting calls of the wrapped function, stated not machine-checked',
+    },
+})
 NOT_CLAIMED = {}
